@@ -197,6 +197,84 @@ def key_order(rep, prog, tmo, failures):
         rep.inconcl("%s: %s" % (ob.name, r.reason))
 
 
+def leaf_encoding(rep, prog, tmo, failures):
+    """the real byte encoding of a concatenation leaf (MerkleTreeConcatenationLeaf::to_bytes): equal encodings => equal key bytes
+    and equal stake, over all stakes in u64 (the tree runs above use an abstract injective leaf encoding: this is what justifies it)"""
+    ctx = c09.Ctx(prog, unroll=110)
+    I = ctx.I
+    BYTE = z3.Function("key_byte", z3.IntSort(), z3.IntSort(), z3.IntSort())
+
+    def models(I, st, caller, func, args, argtys, dest_ty):
+        f = MM.strip_std_paths(func)
+        if re.search(r"BlsVerificationKey::to_bytes$", f):
+            k_ = MM.deref_all(I, st, args[0])
+            kt = [x for x in ([k_] if isinstance(k_, Abs) else k_.fields) if isinstance(x, Abs)][0].term
+            return MM.ret(st, Agg("array", None, tuple(BYTE(kt, z3.IntVal(i)) for i in range(96))))
+        m = re.match(r"^<\[u8; (\d+)\] as IndexMut<(RangeTo|RangeFrom|Range)<usize>>>::index_mut$", f)
+        if m:
+            n = int(m.group(1))
+            rg = args[1]
+            vals = [z3.simplify(x).as_long() for x in rg.fields if z3.is_expr(x)]
+            lo, hi = (0, vals[0]) if m.group(2) == "RangeTo" else (vals[0], n) if m.group(2) == "RangeFrom" else (vals[0], vals[1])
+            if not (0 <= lo <= hi <= n):
+                return MM.panic(st, "range out of bounds for a [u8; %d]" % n)
+            return MM.ret(st, Agg("arrslice", None, (args[0], lo, hi)))
+        if re.match(r"^core::slice::<impl \[u8\]>::copy_from_slice$", f.replace("std::slice", "core::slice")) and isinstance(args[0], Agg) and args[0].kind == "arrslice":
+            ref, lo, hi = args[0].fields
+            src = MM.deref_all(I, st, args[1])
+            if not (isinstance(src, Agg) and src.kind in ("array", "vec")):
+                raise Unencodable("copy_from_slice from %r" % (src,))
+            if len(src.fields) != hi - lo:
+                return MM.panic(st, "copy_from_slice: source slice length (%d) does not match destination slice length (%d)" % (len(src.fields), hi - lo))
+            arr = I.load(st, ref)
+            fl = list(arr.fields)
+            fl[lo:hi] = list(src.fields)
+            I.store(st, ref, Agg(arr.kind, arr.name, tuple(fl)))
+            return MM.ret(st, MI.UNIT)
+        m = re.match(r"^core::num::<impl (u64|u32|u16|usize)>::to_be_bytes$", f)
+        if m:
+            nb = {"u64": 8, "usize": 8, "u32": 4, "u16": 2}[m.group(1)]
+            x = args[0]
+            # bytes as functions of the value with the positional identity (linear; no div/mod for the solver)
+            BEB = z3.Function("be_byte_%d" % nb, z3.IntSort(), z3.IntSort(), z3.IntSort())
+            bs = [BEB(x, z3.IntVal(i)) for i in range(nb)]
+            st.assume(z3.And([z3.And(b >= 0, b <= 255) for b in bs] + [x == z3.Sum([b * (256 ** (nb - 1 - i)) for i, b in enumerate(bs)])]))
+            return MM.ret(st, Agg("array", None, tuple(bs)))
+        return None
+    I.models = [models] + I.models
+    cands = [c for c in prog.find(r"merkle_tree/leaf\.rs.*>::to_bytes$") if "MerkleTreeConcatenationLeaf" in c.header]
+    if len(cands) != 1:
+        raise Unencodable("MerkleTreeConcatenationLeaf::to_bytes: %d candidates" % len(cands))
+    enc = []
+    for tag in ("a", "b"):
+        k_, s_ = z3.Int("leaf_key_" + tag), z3.Int("leaf_stake_" + tag)
+        st = MI.State()
+        st.assume(z3.And(s_ >= 0, s_ < 2 ** 64))
+        for i in range(96):
+            st.assume(z3.And(BYTE(k_, z3.IntVal(i)) >= 0, BYTE(k_, z3.IntVal(i)) <= 255))
+        leaf = Agg("adt", "MerkleTreeConcatenationLeaf", (Agg("adt", "BlsVerificationKey", (Abs("vk", k_),)), s_))
+        outs = I.call_fn(cands[0], [leaf], st)
+        if len(outs) != 1 or outs[0].kind != "return":
+            raise Unencodable("leaf to_bytes: %s" % [(o.kind, o.msg[:60]) for o in outs][:2])
+        v = MM.deref_all(I, outs[0].state, outs[0].value)
+        enc.append((k_, s_, list(v.fields), list(outs[0].pc)))
+    (ka, sa, ba, pa), (kb, sb_, bb, pb) = enc
+    ob = rep.add(core.Obligation("c06_leaf_encoding_injective", "smt", "MerkleTreeConcatenationLeaf::to_bytes: equal %d-byte encodings => equal key encoding and equal stake (all stakes in u64)" % len(ba), {"bytes": len(ba)}))
+    if len(ba) != len(bb):
+        ob.status = "failed"
+        return
+    same_key = z3.And([BYTE(ka, z3.IntVal(i)) == BYTE(kb, z3.IntVal(i)) for i in range(96)])
+    r = smt.check(pa + pb + [z3.And([x == y for x, y in zip(ba, bb)]), z3.Not(z3.And(same_key, sa == sb_))], timeout_s=tmo)
+    ob.solver_s = r.seconds
+    ob.status = "discharged" if r.status == "unsat" else "failed" if r.status == "sat" else "inconclusive"
+    if r.status == "sat":
+        ob.counterexample = {"stake_a": r.model.eval(sa, model_completion=True).as_long(), "stake_b": r.model.eval(sb_, model_completion=True).as_long(),
+                             "same_key": str(r.model.eval(same_key, model_completion=True))}
+        failures.append(("leaf_encoding", 2, (), ob))
+    elif r.status != "unsat":
+        rep.inconcl("%s: %s" % (ob.name, r.reason))
+
+
 def slot_of(ctx, st, sorted_entries, key_term):
     """position of the entry with the given key in the sorted sequence, as a z3 term"""
     r = z3.IntVal(-1)
@@ -319,6 +397,63 @@ def run(tier, seed):
                         if status == "failed":
                             break
                     ob.status = status
+            # the closed registration holds exactly the registered (key, stake) pairs, and entry-for-index agrees with the leaf position
+            if base:
+                order, res, ctxb = base
+                ob = rep.add(core.Obligation("c06_closed_entries_are_the_registered_pairs_n%d" % n, "smt", "n=%d: every entry of the closed registration is one of the registered (key, stake) pairs, unchanged, and there are n of them" % n))
+                status = "discharged"
+                for s1, d1 in res:
+                    sf = d1["sorted"].fields
+                    cl = [z3.BoolVal(len(sf) == n)]
+                    for e in sf:
+                        ek = [x for x in e.fields if isinstance(x, Abs)][0].term
+                        es = [x for x in e.fields if z3.is_expr(x)][0]
+                        cl.append(z3.Or([z3.And(ek == keys[i], es == stakes[i]) for i in range(n)]))
+                    r = smt.check(list(s1.pc) + [z3.Not(z3.And(cl))], timeout_s=tmo)
+                    ob.solver_s += r.seconds
+                    if r.status == "sat":
+                        status = "failed"
+                        ob.counterexample = {a: b for a, b in smt.model_to_dict(r.model).items() if a.startswith(("key_", "stake_"))}
+                        failures.append(("closed_entries", n, (), ob))
+                        break
+                    if r.status != "unsat":
+                        status = "inconclusive"
+                        rep.inconcl("%s: %s" % (ob.name, r.reason))
+                ob.status = status
+                f_entry = prog.find_one(r"key_registration/register\.rs.*>::get_registration_entry_for_index$")
+                ob = rep.add(core.Obligation("c06_entry_for_index_is_leaf_position_n%d" % n, "smt", "n=%d: get_registration_entry_for_index(j) returns the entry at sorted position j (= Merkle leaf j), for every j < n and all stakes (0 included)" % n))
+                status = "discharged"
+                for s1, d1 in res:
+                    sf = d1["sorted"].fields
+                    for j in range(len(sf)):
+                        ctxb.I.frame_counter += 1
+                        jf = ctxb.I.frame_counter
+                        s1b = s1.fork()
+                        s1b.mem[(jf, 0)] = z3.IntVal(j)
+                        for o in ctxb.I.call_fn(f_entry, [d1["closed_ref"], Ref(jf, 0, ())], s1b):
+                            if o.kind != "return":
+                                raise Unencodable("get_registration_entry_for_index: %s %s" % (o.kind, o.msg))
+                            v = o.value
+                            dv = v.discr if z3.is_expr(v.discr) else z3.IntVal(v.discr)
+                            good = z3.BoolVal(False)
+                            if 0 in v.payloads and v.payloads[0]:
+                                e = MM.deref_all(ctxb.I, o.state, v.payloads[0][0])
+                                ek = [x for x in e.fields if isinstance(x, Abs)][0].term
+                                es = [x for x in e.fields if z3.is_expr(x)][0]
+                                wk = [x for x in sf[j].fields if isinstance(x, Abs)][0].term
+                                ws = [x for x in sf[j].fields if z3.is_expr(x)][0]
+                                good = z3.And(dv == 0, ek == wk, es == ws)
+                            r = smt.check(list(o.pc) + [z3.Not(good)], timeout_s=tmo)
+                            ob.solver_s += r.seconds
+                            if r.status == "sat":
+                                status = "failed"
+                                ob.counterexample = {a: b for a, b in smt.model_to_dict(r.model).items() if a.startswith(("key_", "stake_"))}
+                                ob.counterexample["index"] = j
+                            elif r.status != "unsat":
+                                status = "inconclusive" if status == "discharged" else status
+                if status == "failed":
+                    failures.append(("entry_for_index", n, (), ob))
+                ob.status = status
             # slots reported by the real get_signer_index_for_registration agree with the sorted position (base order)
             if base:
                 order, res, ctx = base
@@ -376,6 +511,10 @@ def run(tier, seed):
         key_order(rep, prog, tmo, failures)
     except Unencodable as e:
         rep.inconcl("unencodable (key order): %s" % e)
+    try:
+        leaf_encoding(rep, prog, tmo, failures)
+    except Unencodable as e:
+        rep.inconcl("unencodable (leaf encoding): %s" % e)
     k = 0
     seen = set()
     for clause, n, order, ob in failures:
